@@ -205,10 +205,17 @@ def run(fx, tier):
         order = []
         limit_from_connack = False
         quota_from_limit = False
+        blk_of = {}
         for b, i, l, x in f.elements():
             x = f.resolve({'k': 'elem', 'b': b, 'i': i})
             if not isinstance(x, dict):
                 continue
+            if _writes_field(x, '_limit'):
+                blk_of.setdefault('limit', b)
+            elif _writes_field(x, '_quota'):
+                blk_of.setdefault('quota', b)
+            elif x.get('k') == 'call' and callee_name(x) == 'resend_unanswered':
+                blk_of.setdefault('resend_unanswered', b)
             if _writes_field(x, '_limit'):
                 order.append('limit')
                 o = origin(f, x.get('r'))
@@ -226,6 +233,14 @@ def run(fx, tier):
             elif x.get('k') == 'call' and callee_name(x) == 'do_write':
                 order.append('do_write')
         first = {k: order.index(k) for k in set(order)}
+        # the reset must happen on EVERY path that re-queues (dominance), not only on some
+        dom = f.dominators()
+        uncond = ('resend_unanswered' in blk_of and 'quota' in blk_of and 'limit' in blk_of
+                  and blk_of['quota'] in dom.get(blk_of['resend_unanswered'], set())
+                  and blk_of['limit'] in dom.get(blk_of['resend_unanswered'], set()))
+        v.check(uncond, 'R-DOM', 'async_sender::resend:unconditional-reset [%s]' % f.tu,
+                'the limit/quota reset dominates the re-queueing (executed on every reconnect, not only on some branch)',
+                key='C07:R-DOM:resend:conditional-reset', where=f.file)
         ok = (limit_from_connack and quota_from_limit and 'limit' in first and 'quota' in first
               and first['limit'] < first['quota']
               and all(first['quota'] < first[k] for k in ('resend_unanswered', 'requeue', 'do_write') if k in first)
